@@ -89,7 +89,7 @@ def lemma_map_extents(ctx):
     """map_extents paging loop against the FIEMAP contract (C19, C05)."""
     pages = 2 if ctx.tier == "quick" else 3
     per_page = 2
-    eng = ctx.engine("libfs", loop_bound=pages + per_page + 2)
+    eng = ctx.engine("libfs", loop_bound=(per_page + 2) * (pages + 1))
     install_log_off(eng)
     _vec(eng)
     eng.inline += [r"^FiemapReq::new$", r"^FiemapExtent::new$", r"::new$"]
